@@ -12,7 +12,7 @@ import prog  # noqa
 import progcommon as P  # noqa
 from lib import f32  # noqa
 
-MODULES = ["InovesaModel.Props.C10", "InovesaModel.Props.TieMoments", "InovesaModel.Props.TieRuler", "InovesaModel.Props.TieH5", "InovesaModel.Props.TiePS", "InovesaModel.Props.TiePhysics", "InovesaModel.Props.TieH5Shapes"]
+MODULES = ["InovesaModel.Props.C10", "InovesaModel.Props.TieMoments", "InovesaModel.Props.TieRuler", "InovesaModel.Props.TieH5", "InovesaModel.Props.TiePS", "InovesaModel.Props.TiePhysics", "InovesaModel.Props.TieH5Shapes", "InovesaModel.Props.TieH5Read"]
 LEVEL = "proof"
 U = 2.0 ** -24
 
@@ -196,7 +196,17 @@ def file_oracle(cfg, D):
 def one_run(exe, h5, cfg, keep=False, sig=None):
     d = prog.scratch()
     try:
-        r = prog.run_inovesa(exe, P.args_of(cfg), d, sigint_at=sig, trace=True)
+        extra = []
+        if cfg.get("restart_volt"):
+            # first a run at ANOTHER RF voltage whose last phase space becomes the start distribution: every scale and unit
+            # factor of the second file must belong to the second run's own parameters
+            c0 = dict(cfg, volt=cfg["restart_volt"], h5save=1)
+            c0.pop("restart_volt")
+            r0 = prog.run_inovesa(exe, P.args_of(c0, out="start.h5"), d)
+            if r0.rc != 0 or not os.path.exists(os.path.join(d, "start.h5")):
+                return None, "first leg of the restart case failed: %s" % (r0.err or r0.out)[-300:]
+            extra = ["-i", "start.h5"]
+        r = prog.run_inovesa(exe, P.args_of(cfg, extra=extra), d, sigint_at=sig, trace=True)
         if r.rc != 0 or not os.path.exists(os.path.join(d, "a.h5")):
             return None, "program exited with status %d: %s" % (r.rc, (r.err or r.out)[-400:])
         D = prog.dump(h5, os.path.join(d, "a.h5"))
@@ -222,6 +232,12 @@ def explore(chk, exe, h5, count, quick, tag):
     rng = lib.Rng(chk.seed, "C10/" + tag)
     cfgs = [P.gen_config(rng, quick) for _ in range(count)] + ([renorm_witness()] if tag == "main" else [])
     mism, fails = [], []
+    if tag == "main" and len(cfgs) > 2:
+        # one run that starts from the results file of a run at another RF voltage (single bunch, with a wake)
+        c = cfgs[1]
+        c.update(cur=[0.002], volt=7.0e5, restart_volt=1.4e6, renorm=-1)
+        if c["imp"] == "none":
+            c["imp"] = "pp"
     for cfg in cfgs:
         if rng.random() < 0.6 and not cfg.get("witness"):
             cfg["h5save"] = 1          # store every phase space so that every record can be checked
